@@ -1969,40 +1969,30 @@ class ExpressionEvaluator(Parser):
         try:
             constant = self.match_type(NumericalConstant)
 
+            # Strip suffix (if present)
+            # A suffix combines u/U with l/L, ll/LL in either order.
+            value = constant.token.rstrip("uUlL")
+            suffix = constant.token[len(value) :]
+            suffixes = ["", "u", "l", "ul", "lu", "ll", "ull", "llu"]
+            if suffix.lower() not in suffixes:
+                raise ParseError("Invalid integer suffix.")
+            if "lL" in suffix or "Ll" in suffix:
+                raise ParseError("Invalid integer suffix.")
+
             # Use prefix (if present) to determine base
             base = 10
             bases = {"0x": 16, "0X": 16, "0b": 2, "0B": 2}
-            try:
-                prefix = constant.token[0:2]
+            prefix = value[0:2]
+            if prefix in bases:
                 base = bases[prefix]
-                value = constant.token[2:]
-            except KeyError:
-                value = constant.token
-
-            # Strip suffix (if present)
-            suffix = None
-            suffixes = [
-                "ull",
-                "ULL",
-                "ul",
-                "UL",
-                "ll",
-                "LL",
-                "u",
-                "U",
-                "l",
-                "L",
-            ]
-            for s in suffixes:
-                if value.endswith(s):
-                    suffix = s
-                    value = value[: -len(s)]
-                    break
+                value = value[2:]
+            elif value.startswith("0"):
+                base = 8
 
             # Convert to decimal and then to integer with correct sign
             # Preprocessor always uses 64-bit arithmetic!
             int_value = int(value, base)
-            if suffix and "u" in suffix.lower():
+            if "u" in suffix.lower():
                 return np.uint64(int_value)
             else:
                 return np.int64(int_value)
